@@ -115,8 +115,9 @@ def _consumed(funcs: List[Func]):
 def r1_diff_keys_consumed(ctx):
     ctx.rule('R-C05.1')
     p = ctx.program
-    cons = _consumed([p.func('diff', 'Diff.__init__'),
-                      p.func('diff', 'Diff.evolution')])
+    from ..util import unit
+    cons = _consumed([p.func('diff', 'Diff.__init__')] +
+                     unit(ctx, p.func('diff', 'Diff.evolution')))
     meta_cons = set()
     for k, v in cons.items():
         if 'meta_changed' in k:
@@ -215,8 +216,8 @@ def r2_simulate_writes_what_diff_reads(ctx):
     p = ctx.program
     # mutation classes constructed by Diff.evolution
     evo = p.func('diff', 'Diff.evolution')
-    built = {call_name(c) for c in walk_no_nested(evo.node,
-                                                  include_lambda=True)
+    from ..util import unit_walk
+    built = {call_name(c) for _, c in unit_walk(ctx, evo)
              if isinstance(c, ast.Call) and isinstance(c.func, ast.Name) and
              c.func.id[:1].isupper()}
     built &= {'AddField', 'ChangeField', 'ChangeMeta', 'DeleteField',
@@ -251,9 +252,14 @@ def r2_simulate_writes_what_diff_reads(ctx):
     branches: Dict[str, List[ast.stmt]] = {}
     for n in walk_no_nested(cm.node):
         if isinstance(n, ast.If):
-            for k in compare_consts(n.test, lambda e: isinstance(e, ast.Name)
+            test, body = n.test, n.body
+            while isinstance(test, ast.UnaryOp) and isinstance(test.op,
+                                                               ast.Not):
+                test, body = test.operand, (n.orelse if body is n.body
+                                            else n.body)
+            for k in compare_consts(test, lambda e: isinstance(e, ast.Name)
                                     and e.id == 'prop_name'):
-                branches[k] = n.body
+                branches[k] = body
     for k, attrs in sorted(compared.items()):
         body = branches.get(k)
         if body is None:
